@@ -207,4 +207,28 @@ def checkedAdd (u : Int) (secs : Nat) : Option Int :=
 def checkedSub (u : Int) (secs : Nat) : Option Int :=
   match fromUnix (u - secs) with | .ok v => some v | _ => none
 
+/-- `Duration::<name>(n)` as seconds: the argument (already widened to `i64`) is multiplied by the unit inside the
+`time` crate, which panics (`expect("overflow constructing …")`) when the product leaves `i64`.  `none` for a name the
+source does not define. -/
+def durationSecs (name : String) (n : Nat) : Option (Outcome TErr Nat) :=
+  match Gen.C13.durationCtors.find? (·.1 == name) with
+  | none => none
+  | some (_, k, bits) =>
+    if n < 2 ^ bits then
+      some (if n * k < 2 ^ 63 then .ok (n * k) else .panic "time::Duration: overflow constructing the duration")
+    else none
+
+/-- `ts.checked_add(Duration::<name>(n))` -/
+def checkedAddDur (u : Int) (name : String) (n : Nat) : Option (Outcome TErr (Option Int)) :=
+  (durationSecs name n).map fun
+    | .ok s => .ok (checkedAdd u s)
+    | .err e => .err e
+    | .panic p => .panic p
+
+def checkedSubDur (u : Int) (name : String) (n : Nat) : Option (Outcome TErr (Option Int)) :=
+  (durationSecs name n).map fun
+    | .ok s => .ok (checkedSub u s)
+    | .err e => .err e
+    | .panic p => .panic p
+
 end IdModel.Time
